@@ -361,7 +361,7 @@ type CR3Opts struct {
 	// itself is sized by what it holds) and a free box follows PRVW inside the preview uuid box
 	PrvwField int
 	Top64     int // bit 0: moov, bit 1: the xpacket uuid box, bit 2: the preview uuid box carry a 64-bit size (size field 1, largesize follows)
-	Tail     int  // 0: mdat last (as cameras write it); 1: no mdat (the last metadata box ends the stream); 2: mdat before the xpacket/preview uuid boxes
+	Tail      int // 0: mdat last (as cameras write it); 1: no mdat (the last metadata box ends the stream); 2: mdat before the xpacket/preview uuid boxes
 }
 
 func randBox(l *core.Lane) []byte {
@@ -850,36 +850,79 @@ var repeatTagIDs = [][]uint16{
 	{0x001d, 0x0001, 0x0003, 0x0012},                         // GPS: DateStamp LatRef LonRef MapDatum
 }
 
+// WideTIFF builds one TIFF block of the kind RepeatOpts describes (kind selects the tag ids: 0
+// IFD0, 1 Exif, 2 maker note, 3 GPS).
+func WideTIFF(o RepeatOpts, kind int) []byte {
+	var bo binary.ByteOrder = binary.LittleEndian
+	if o.Big {
+		bo = binary.BigEndian
+	}
+	return wideTIFF(o, bo, kind)
+}
+
+// RepeatJPEG: SOI, n APP1 Exif segments (and as many XMP segments when xmp is set), DQT, data.
+func RepeatJPEG(o RepeatOpts, n int, xmp []byte) []byte {
+	out := []byte{0xff, 0xd8}
+	seg := func(marker byte, payload []byte) {
+		if len(payload) > 65533 {
+			payload = payload[:65533]
+		}
+		out = append(out, 0xff, marker, byte((len(payload)+2)>>8), byte(len(payload)+2))
+		out = append(out, payload...)
+	}
+	for i := 0; i < n; i++ {
+		seg(0xe1, append([]byte("Exif\x00\x00"), WideTIFF(o, 0)...))
+		if xmp != nil {
+			seg(0xe1, append([]byte("http://ns.adobe.com/xap/1.0/\x00"), xmp...))
+		}
+	}
+	seg(0xdb, make([]byte, 65))
+	return append(out, make([]byte, 128)...)
+}
+
+// RepeatPNG: signature, IHDR, n eXIf chunks, IDAT, IEND.
+func RepeatPNG(o RepeatOpts, n int) []byte {
+	out := []byte("\x89PNG\r\n\x1a\n")
+	out = pngChunk(out, "IHDR", []byte{0, 0, 0, 16, 0, 0, 0, 16, 8, 2, 0, 0, 0})
+	for i := 0; i < n; i++ {
+		out = pngChunk(out, "eXIf", WideTIFF(o, 0))
+	}
+	out = pngChunk(out, "IDAT", make([]byte, 32))
+	return pngChunk(out, "IEND", nil)
+}
+
+func wideTIFF(o RepeatOpts, bo binary.ByteOrder, kind int) []byte {
+	n := o.Tags
+	b := make([]byte, 8+2+12*n+4+o.Data)
+	if o.Big {
+		copy(b, "MM\x00*")
+	} else {
+		copy(b, "II*\x00")
+	}
+	bo.PutUint32(b[4:], 8)
+	bo.PutUint16(b[8:], uint16(n))
+	dataOff := 8 + 2 + 12*n + 4
+	ids := repeatTagIDs[kind]
+	for i := 0; i < n; i++ {
+		p := 10 + 12*i
+		bo.PutUint16(b[p:], ids[i%len(ids)])
+		bo.PutUint16(b[p+2:], 2)
+		bo.PutUint32(b[p+4:], o.Count)
+		bo.PutUint32(b[p+8:], uint32(dataOff+i*o.Step))
+	}
+	for i := dataOff; i < len(b); i++ {
+		b[i] = "Canon EOS R5 lens 24-70mm F2.8 "[i%31]
+	}
+	return b
+}
+
 // RepeatCR3 builds the file described by o.
 func RepeatCR3(o RepeatOpts) []byte {
 	var bo binary.ByteOrder = binary.LittleEndian
 	if o.Big {
 		bo = binary.BigEndian
 	}
-	tiff := func(kind int) []byte {
-		n := o.Tags
-		b := make([]byte, 8+2+12*n+4+o.Data)
-		if o.Big {
-			copy(b, "MM\x00*")
-		} else {
-			copy(b, "II*\x00")
-		}
-		bo.PutUint32(b[4:], 8)
-		bo.PutUint16(b[8:], uint16(n))
-		dataOff := 8 + 2 + 12*n + 4
-		ids := repeatTagIDs[kind]
-		for i := 0; i < n; i++ {
-			p := 10 + 12*i
-			bo.PutUint16(b[p:], ids[i%len(ids)])
-			bo.PutUint16(b[p+2:], 2)
-			bo.PutUint32(b[p+4:], o.Count)
-			bo.PutUint32(b[p+8:], uint32(dataOff+i*o.Step))
-		}
-		for i := dataOff; i < len(b); i++ {
-			b[i] = "Canon EOS R5 lens 24-70mm F2.8 "[i%31]
-		}
-		return b
-	}
+	tiff := func(kind int) []byte { return wideTIFF(o, bo, kind) }
 	inner := Box("CNCV", []byte("CanonCR3_001/00.09.00/00.00.00"))
 	for i := 0; i < o.CMT; i++ {
 		k := 0
